@@ -26,6 +26,7 @@ from . import env
 WAIT = 30.0          # seconds until a missing hand-shake is declared a hang
 PORTS = [10767, 65535, 7, 8080, 443, 20001, 333]
 DISCOVER = b'{"SECoP": "discover"}'
+WAKE = object()
 CUR = [None]         # the world of this process
 
 
@@ -41,6 +42,7 @@ class ThreadedUDP:
         self.idle = threading.Event()
         self.dead = threading.Event()
         self.reads_after_close = 0
+        self.blocked = False                # a thread waits inside recvfrom: the kernel keeps the socket bound
         self.mark = 0
         self.hold = CUR[0].next_hold        # '' | 'start' | 'send': where the responder thread is held
         self.held = threading.Event()       # the thread has reached the hold point
@@ -60,9 +62,13 @@ class ThreadedUDP:
                 raise StopThread()
             raise OSError(errno.EBADF, 'Bad file descriptor')
         self.idle.set()
+        self.blocked = True
         item = self.q.get()
-        if item is None:
+        self.blocked = False
+        if item is None:                    # (cleanup of the harness)
             raise OSError(errno.EBADF, 'Bad file descriptor')
+        if item is WAKE:                    # shutdown(SHUT_RDWR) by another thread: the read returns empty
+            return b'', ('0.0.0.0', 0)
         return item[0][:bufsize], item[1]
 
     def sendto(self, data, *rest):
@@ -75,12 +81,23 @@ class ThreadedUDP:
         return len(data)
 
     def shutdown(self, how):
-        pass
+        # Linux: wakes a thread blocked in recvfrom, then reports that a UDP socket is not connected
+        if self.blocked:
+            self.q.put(WAKE)
+        raise OSError(errno.ENOTCONN, 'Transport endpoint is not connected')
+
+    def in_group(self):
+        """still a member of the SO_REUSEPORT group: open, or closed while a thread blocks in recvfrom (close()
+        alone does not wake that thread and the kernel keeps the socket until it returns)"""
+        return not self.closed or (self.blocked and not self.dead.is_set())
+
+    def kill(self):
+        self.closed = True
+        self.q.put(None)
 
     def close(self):
         if not self.closed:
             self.closed = True
-            self.q.put(None)
             w = CUR[0]
             if w is not None and w.tearing_down():
                 w.step('stop_responder', 0)
@@ -340,6 +357,23 @@ class World:
             out += [(getattr(s, 'gen', 0), raw, dest) for raw, dest in s.sent[s.mark:]]
         return out
 
+    def probe_unicast(self, sender=('10.0.0.8', 40001)):
+        """one unicast request per socket bound in the reuse-port group (the kernel picks one member by a hash of the
+        sender: any of them, also a closed socket a thread still blocks on) -> per request the list of answers"""
+        res = []
+        for tgt in [s for s in self.sockets if s.in_group()]:
+            marks = [(s, len(s.sent)) for s in self.sockets]
+            tgt.idle.wait(WAIT)
+            tgt.idle.clear()
+            tgt.q.put((DISCOVER, sender))
+            t0 = time.time()
+            while not (tgt.idle.is_set() or tgt.dead.is_set()) and time.time() - t0 < WAIT:
+                time.sleep(0.0005)
+            if not (tgt.idle.is_set() or tgt.dead.is_set()):
+                self.error = self.error or 'hang answering a request'
+            res.append([(getattr(s, 'gen', 0), raw, dest) for s, n in marks for raw, dest in s.sent[n:]])
+        return res
+
     def running_responders(self):
         return sum(1 for s in self.sockets if not s.dead.is_set())
 
@@ -350,7 +384,7 @@ class World:
                 self.srv.shutdown()
                 self.thread.join(WAIT)
             for s in self.sockets:
-                s.close()
+                s.kill()
                 s.release.set()
             for s in self.sockets:
                 s.dead.wait(2)
